@@ -157,9 +157,36 @@ def small(v):
     return v
 
 
+EXT32 = {'int8': (-128, 127), 'int16': (-2 ** 15, 2 ** 15 - 1), 'int32': (-2 ** 31, 2 ** 31 - 1),
+         'uint8': (0, 255), 'uint16': (0, 2 ** 16 - 1), 'uint32': (0, 2 ** 32 - 1)}
+
+
+def extremes(rng, t, v):
+    """leaf values of the integer dtypes up to 32 bits replaced (30 %) by the dtype's extremes: a promotion that reads a
+    buffer with the wrong signedness or width shows only there (they are exact in int64 and float64)"""
+    k = t[0]
+    if v is None:
+        return None
+    if k == 'leaf':
+        if t[1] in EXT32 and rng.random() < 0.3:
+            return rng.choice(EXT32[t[1]])
+        return v
+    if k == 'list':
+        return [extremes(rng, t[1], x) for x in v]
+    if k == 'opt':
+        return extremes(rng, t[1], v)
+    if k == 'rec' and isinstance(v, tuple) and v and v[0] == '$rec':
+        return ('$rec', [extremes(rng, ft, x) for (_, ft), x in zip(t[1], v[1])])
+    if k == 'union' and isinstance(v, tuple) and v and v[0] == '$un':
+        return ('$un', v[1], extremes(rng, t[1][v[1]], v[2]))
+    return v
+
+
 def mk(rng, t, n=None, special=False, enc_kw=None):
     n = rng.choice([0, 1, 2, 3, 3, 4]) if n is None else n
     vals = [small(G.gen_value(rng, t, 3, special)) for _ in range(n)]
+    if rng.random() < 0.25:
+        vals = [extremes(rng, t, v) for v in vals]
     enc = G.Enc(rng, **dict(dict(special=special, nd=0), **(enc_kw or {})))
     return G.encode(enc, t, vals), vals
 
